@@ -63,7 +63,8 @@ package flow
 
 // helpers of runLoop that do not change task states (frame-only, assumed)
 //@ func value.ToInternal
-//@   assumed A-int: unwraps a cue.Value
+//@   assumed A-int: unwraps a cue.Value; pure
+//@   pure
 //@ func (*adt.Vertex).LeafConjuncts
 //@   assumed A-int: iterator over conjuncts
 //@ func slices.Collect
@@ -118,4 +119,45 @@ package flow
 //@   effect go#0 sets t.started = 1
 //@   effect (*flow.Controller).markReady#1 requires t.err == nil
 //@   ensures schedInv()
+//@   assigns heap
+
+// ---- C18: every node below a task belongs to that task in the dependency analysis ----
+// (references to fields inside a task are dependencies on the task: the
+// node-to-task map must cover the children of a task node in every evaluation,
+// also while the task is running)
+
+//@ spec func arcsOK() bool { forall x *adt.Vertex, k int :: {x.Arcs[k]} x != nil && 0 <= k && k < len(x.Arcs) ==> x.Arcs[k] != nil }
+//@ func (*Controller).tagChildren
+//@   requires c != nil && n != nil && c.nodes != nil && arcsOK()
+//@   loop 0 invariant -1 <= rangeindex && rangeindex < len(n.Arcs)
+//@   loop 0 invariant forall k int :: 0 <= k && k <= rangeindex ==> inDom(c.nodes, n.Arcs[k]) && c.nodes[n.Arcs[k]] == t
+//@   loop 0 invariant forall x *adt.Vertex :: old(inDom(c.nodes, x)) ==> inDom(c.nodes, x)
+//@   loop 0 invariant forall x *adt.Vertex :: inDom(c.nodes, x) && !(old(inDom(c.nodes, x)) && c.nodes[x] == old(c.nodes[x])) ==> c.nodes[x] == t
+//@   ensures [children] forall k int :: 0 <= k && k < len(n.Arcs) ==> inDom(c.nodes, n.Arcs[k]) && c.nodes[n.Arcs[k]] == t
+//@   ensures [keys] forall x *adt.Vertex :: old(inDom(c.nodes, x)) ==> inDom(c.nodes, x)
+//@   ensures [onlyt] forall x *adt.Vertex :: inDom(c.nodes, x) && !(old(inDom(c.nodes, x)) && c.nodes[x] == old(c.nodes[x])) ==> c.nodes[x] == t
+//@   assigns mapof(c.nodes)
+
+//@ func (*Controller).relPath
+//@   assumed A-int: path arithmetic; reads only
+//@ func (*Controller).inRoot
+//@   assumed A-int: reads only
+//@ func (cue.Path).Selectors
+//@   assumed A-int: reads only
+//@ func (cue.Path).String
+//@   assumed A-int: reads only
+//@ func (cue.Value).Path
+//@   assumed A-int: reads only
+//@ func (Service).IsService
+//@   assumed A-int: user supplied; does not touch the controller
+//@ func isTaskEffect
+//@   assumed A-int: the user supplied TaskFunc inspects the value; it does not touch the controller
+//@ func (*Controller).getTask
+//@   may_panic
+//@   nocheck bounds
+//@   callsite dynamic#0 contract isTaskEffect
+//@   requires c != nil && c.nodes != nil && c.keys != nil && arcsOK() && value.ToInternal(v).result1 != nil
+//@   ensures [cached] old(inDom(c.nodes, value.ToInternal(v).result1)) ==> result == old(c.nodes[value.ToInternal(v).result1])
+//@   ensures [tagged] result != nil && !old(inDom(c.nodes, value.ToInternal(v).result1)) ==> forall k int :: 0 <= k && k < len(value.ToInternal(v).result1.Arcs) ==> inDom(c.nodes, value.ToInternal(v).result1.Arcs[k]) && c.nodes[value.ToInternal(v).result1.Arcs[k]] == result
+//@   ensures [self] !old(inDom(c.nodes, value.ToInternal(v).result1)) ==> inDom(c.nodes, value.ToInternal(v).result1) && (result != nil ==> c.nodes[value.ToInternal(v).result1] == result) && (result == nil ==> c.nodes[value.ToInternal(v).result1] == scope)
 //@   assigns heap
